@@ -442,6 +442,86 @@ def forms_msp430_jumps():
             yield it('org 16384\n\t%s $+2+(%d)' % (mn, d), 'ERR', S + mn.upper() + '/range', at=16384)
 
 
+def forms_msp430():
+    """MSP430 (CPU, not CPUX) core instruction set, SLAU049: format I (double operand), format II (single operand), all seven
+    source addressing modes incl. the constant generators R2/R3, four destination modes, byte and word forms, and the emulated
+    mnemonics that are defined as one core instruction"""
+    S = 'msp430/'
+
+    def w(v):
+        return [v & 0xff, (v >> 8) & 0xff]
+    CG = {0: (3, 0), 1: (3, 1), 2: (3, 2), -1: (3, 3), 4: (2, 2), 8: (2, 3)}
+    BASE = 0x4000
+
+    def src(kind, at):
+        """-> (text, reg, As, extension words or None); `at` = address of the extension word if one follows"""
+        if kind[0] == 'reg':
+            return 'r%d' % kind[1], kind[1], 0, []
+        if kind[0] == 'idx':
+            return '%d(r%d)' % (kind[2], kind[1]), kind[1], 1, [kind[2] & 0xffff]
+        if kind[0] == 'abs':
+            return '&%d' % kind[1], 2, 1, [kind[1]]
+        if kind[0] == 'sym':
+            return '%d' % kind[1], 0, 1, [(kind[1] - at) & 0xffff]
+        if kind[0] == 'ind':
+            return '@r%d' % kind[1], kind[1], 2, []
+        if kind[0] == 'inc':
+            return '@r%d+' % kind[1], kind[1], 3, []
+        if kind[0] == 'imm':
+            v = kind[1]
+            if v in CG:
+                return '#%d' % v, CG[v][0], CG[v][1], []
+            return '#%d' % v, 0, 3, [v & 0xffff]
+    SRCS = [('reg', 4), ('reg', 15), ('idx', 5, 2), ('idx', 6, -2), ('idx', 1, 0x100), ('abs', 0x200), ('abs', 0xfffe), ('sym', 0x4100), ('sym', 0x3ff0), ('ind', 7),
+            ('inc', 8), ('inc', 1), ('imm', 0), ('imm', 1), ('imm', 2), ('imm', -1), ('imm', 4), ('imm', 8), ('imm', 3), ('imm', 0x1234), ('imm', -2), ('imm', 0x7f)]
+    DSTS = [('reg', 5), ('reg', 15), ('idx', 9, 4), ('idx', 10, -6), ('abs', 0x220), ('sym', 0x4200)]
+    two = {'mov': 4, 'add': 5, 'addc': 6, 'subc': 7, 'sub': 8, 'cmp': 9, 'dadd': 10, 'bit': 11, 'bic': 12, 'bis': 13, 'xor': 14, 'and': 15}
+    for mn, op in two.items():
+        for bw, suf in ((0, ''), (0, '.w'), (1, '.b')):
+            for sk in (SRCS if mn in ('mov', 'add', 'cmp', 'and') else SRCS[::3]):
+                for dk in (DSTS if mn in ('mov', 'xor') else DSTS[::2]):
+                    if bw and sk[0] == 'imm' and not -128 <= sk[1] <= 255:
+                        continue
+                    st, sr, As, sx = src(sk, BASE + 2)
+                    dt, dr, Ad, dx = src(dk, BASE + 2 + 2 * len(sx))
+                    code = w(op << 12 | sr << 8 | Ad << 7 | bw << 6 | As << 4 | dr)
+                    for x in sx + dx:
+                        code += w(x)
+                    yield it('org %d\n\t%s%s %s,%s' % (BASE, mn, suf, st, dt), code, S + mn.upper() + '/' + sk[0] + '-' + dk[0], at=BASE)
+        yield it('%s r4' % mn, 'ERR', S + mn.upper() + '/operand-count')
+        yield it('%s r4,#1' % mn, 'ERR', S + mn.upper() + '/immediate-destination')
+        # (@Rn as a destination is accepted as the equivalent 0(Rn): the instruction set has no indirect destination mode)
+        yield it('%s r4,@r5' % mn, w(op << 12 | 4 << 8 | 1 << 7 | 5) + w(0), S + mn.upper() + '/indirect-destination-as-indexed')
+        yield it('%s r4,@r5+' % mn, 'ERR', S + mn.upper() + '/autoincrement-destination')
+        yield it('%s r16,r4' % mn, 'ERR', S + mn.upper() + '/register')
+    one = {'rrc': (0x1000, 1), 'swpb': (0x1080, 0), 'rra': (0x1100, 1), 'sxt': (0x1180, 0), 'push': (0x1200, 1), 'call': (0x1280, 0)}
+    for mn, (op, hasb) in one.items():
+        for bw, suf in ((0, ''), (1, '.b')) if hasb else ((0, ''),):
+            for sk in SRCS:
+                if sk[0] == 'imm' and (mn not in ('push', 'call') or sk[1] in (4, 8)):
+                    continue          # (PUSH #4/#8: the CPU4 erratum makes assemblers avoid the constant generator; not pinned down)
+                if bw and sk[0] == 'imm' and not -128 <= sk[1] <= 255:
+                    continue
+                st, sr, As, sx = src(sk, BASE + 2)
+                code = w(op | bw << 6 | As << 4 | sr)
+                for x in sx:
+                    code += w(x)
+                yield it('org %d\n\t%s%s %s' % (BASE, mn, suf, st), code, S + mn.upper() + '/' + sk[0], at=BASE)
+    yield it('reti', w(0x1300), S + 'RETI')
+    yield it('swpb.b r4', 'ERR', S + 'SWPB/byte')
+    # emulated mnemonics = one core instruction each
+    emu = [('nop', 0x4303, []), ('ret', 0x4130, []), ('clrc', 0xC312, []), ('setc', 0xD312, []), ('clrz', 0xC322, []), ('setz', 0xD322, []), ('clrn', 0xC222, []),
+           ('setn', 0xD222, []), ('dint', 0xC232, []), ('eint', 0xD232, []), ('pop r5', 0x4135, []), ('br r5', 0x4500, []), ('clr r5', 0x4305, []), ('inc r5', 0x5315, []),
+           ('incd r5', 0x5325, []), ('dec r5', 0x8315, []), ('decd r5', 0x8325, []), ('tst r5', 0x9305, []), ('inv r5', 0xE335, []), ('rla r5', 0x5505, []),
+           ('rlc r5', 0x6505, []), ('adc r5', 0x6305, []), ('sbc r5', 0x7305, []), ('dadc r5', 0xA305, []), ('clr.b r5', 0x4345, []), ('inc.b r5', 0x5355, []),
+           ('tst.b r5', 0x9345, []), ('br #4660', 0x4030, [0x1234]), ('clr &512', 0x4382, [0x200]), ('pop &512', 0x41B2, [0x200])]
+    for txt, op, ext in emu:
+        code = w(op)
+        for x in ext:
+            code += w(x)
+        yield it(txt, code, S + 'EMU/' + txt.split()[0].upper())
+
+
 ISAS = {
     '6502': dict(cpu='6502', gen=forms_6502, slot=8),
     '8080': dict(cpu='8080', gen=forms_8080, slot=8),
@@ -451,4 +531,5 @@ ISAS = {
     'z80': dict(cpu='z80', gen=forms_z80, slot=8),
     'avr': dict(cpu='at90s8515', gen=forms_avr, slot=4, pre=['p%d\tport %d' % (a, a) for a in (0, 31, 32, 57, 63)]),
     'msp430-jumps': dict(cpu='msp430', gen=forms_msp430_jumps, slot=4),
+    'msp430': dict(cpu='msp430', gen=forms_msp430, slot=8),
 }
